@@ -55,6 +55,15 @@ def gen_zdir(rng: random.Random, opts: Optional[pg.GenOpts] = None, n_pages=None
         sub = rng.choice(SUBDIRS)
         rel = (sub + "/" if sub else "") + nm + ".zo"
         rels.append(rel)
+    # two pages may share their base name as long as they live in different directories
+    if rels and rng.random() < 0.35:
+        src = rng.choice(rels)
+        base = src.split("/")[-1]
+        for sub in rng.sample(["", "sub", "d2", "sub/deep", "other"], 5):
+            cand = (sub + "/" if sub else "") + base
+            if cand not in rels:
+                rels.append(cand)
+                break
     for rel in rels:
         z.pages[rel] = gen.page()
     if cross_links and len(rels) > 0:
